@@ -16,6 +16,9 @@ def run(ctx):
     cases = dqgen.gen_cases(rnd, n, ctx.scale(60, 400), "h", empty_get=0.02, reopen_p=0.09)
     # sizes straddling the segment limit, including messages of several segments
     cases += dqgen.gen_cases(rnd, ctx.scale(60, 600), 40, "big", maxbs=(1, 4, 7, 10), ses=(1, 2, 5), sizes=(0, 2, 3, 4, 6, 7, 11, 25, 33), reopen_p=0.15)
+    # realistic message sizes (a spooled metric line may be several KB: long tag lists) in realistic and in tiny segments
+    cases += dqgen.gen_cases(rnd, ctx.scale(12, 120), 14, "kb", maxbs=(100, 5000, 70000, 1000000), ses=(1, 5, 100),
+                             sizes=(10, 300, 4090, 4096, 4097, 5000, 9000, 20000, 65535, 65536, 70000), reopen_p=0.12)
     # reopen after every op
     for i in range(ctx.scale(10, 100)):
         ops = dqgen.gen_history(rnd, 25, (0, 1, 3, 9), 0.0, 0.0)
